@@ -107,6 +107,7 @@ def mapOp (c : MapCtx) (op : String) (arg : String) : String :=
     | "lpad" => showL (do let ps ← c.ps; lpadStridesArrM c.T ps c.es)
     | "rpad" => showL (do let ps ← c.ps; rpadStridesArrM c.T ps c.es)
     | _ => "no-op"
+  | "cvs" => showL ((List.range n).mapM (fun r => mapStride c r))      -- conversion to another extents type keeps every stride
   | "exh" => showS (do let b ← mapExh c; pure s!"ok {fmtB b}")
   | "flags" => showS (do
       let b ← mapExh c
